@@ -275,16 +275,19 @@ def to_xir(prog: Program, **kwargs) -> xir.Program:
                 if cmd.op.dark_counts is not None:
                     params["dark_counts"] = cmd.op.dark_counts
         else:
+            # gates such as the Fouriergate hold an internal parameter their constructor does not take
+            op_params = [] if isinstance(cmd.op, ops.zero_args_gates) else cmd.op.p
+
             if add_decl:
                 if name not in [gdecl.name for gdecl in xir_prog.declarations["gate"]]:
-                    params = [f"p{i}" for i, _ in enumerate(cmd.op.p)]
+                    params = [f"p{i}" for i, _ in enumerate(op_params)]
                     gate_decl = xir.Declaration(
                         name, type_="gate", params=params, wires=tuple(range(len(wires)))
                     )
                     xir_prog.add_declaration(gate_decl)
 
             params = []
-            for i, a in enumerate(cmd.op.p):
+            for i, a in enumerate(op_params):
                 if sfpar.par_is_symbolic(a):
                     # try to evaluate symbolic parameter
                     try:
